@@ -81,6 +81,9 @@ type Case struct {
 	Tasks []TaskSpec `json:"tasks,omitempty"` // C13
 	Sched *SchedSpec `json:"sched,omitempty"`
 	Pool  *PoolSpec  `json:"pool,omitempty"`
+	// C13 fresh-process arm: each entry is an order of task indices executed
+	// one after the other in its own freshly started OS process.
+	Procs [][]int `json:"procs,omitempty"`
 }
 
 // ReplayFile is what is written under replays/.
